@@ -1,5 +1,5 @@
-//! bounded(72 address payloads: the four address types (PubKey, Script, Redeem, Other(7)) x 3 spending keys x attribute lists {none, a network
-//! tag, a derivation path, both, a bootstrap-era distribution, a single-key distribution}; for each, every single-bit corruption of the whole
+//! bounded(96 address payloads: the four address types (PubKey, Script, Redeem, Other(7)) x 3 spending keys x attribute lists {none, a network
+//! tag, a derivation path, both in key order, both NOT in key order, three unordered, a bootstrap-era distribution, a single-key distribution}; for each, every single-bit corruption of the whole
 //! encoded address — payload, tag, CRC bytes): an address built from a payload decodes back to it and round-trips through raw bytes, hex,
 //! base58 and the generic Address (from_bytes / from_hex / from_str); a corrupted encoding never yields an address (other than by an honest
 //! re-encoding of the same address). Exit 1 with the first failing payload / bit if not.
@@ -18,6 +18,8 @@ fn main() {
         vec![AddrAttrProperty::NetworkTag(ByteVec::from(vec![0x1a, 0x41, 0x70, 0x8b, 0x2d]))],
         vec![AddrAttrProperty::DerivationPath(ByteVec::from(vec![0x58, 0x1c, 1, 2, 3, 4, 5, 6, 7, 8, 9, 10, 11, 12, 13, 14, 15, 16, 17, 18, 19, 20, 21, 22, 23, 24, 25, 26, 27, 28]))],
         vec![AddrAttrProperty::DerivationPath(ByteVec::from(vec![0x41, 0x00])), AddrAttrProperty::NetworkTag(ByteVec::from(vec![0x00]))],
+        vec![AddrAttrProperty::NetworkTag(ByteVec::from(vec![0x1a, 0x41, 0x70, 0xcb, 0x17])), AddrAttrProperty::DerivationPath(ByteVec::from(vec![1, 2, 3, 4]))],      // NOT in key order
+        vec![AddrAttrProperty::NetworkTag(ByteVec::from(vec![0x00])), AddrAttrProperty::AddrDistr(AddrDistr::BootstrapEraDistribution), AddrAttrProperty::DerivationPath(ByteVec::from(vec![0x40]))],
         vec![AddrAttrProperty::AddrDistr(AddrDistr::BootstrapEraDistribution)],
         vec![AddrAttrProperty::AddrDistr(AddrDistr::SingleKeyDistribution(pallas_crypto::hash::Hash::from([0x5a; 28])))],
     ];
